@@ -15,19 +15,33 @@ from mc import core
 
 PROPERTY = 'C01'
 GUARD = ['numqi.manifold']  # argument-immutability oracle (mc.seams.ImmutabilityGuard)
+GUARD_LAYOUT = ['numqi.manifold']  # memory-layout oracle: every depth-0 call is repeated with Fortran-ordered / re-strided theta batches
 LEVEL = 'model_checking'
 RULE = ('state = (map, dim, rank, field, backend, precision, theta lattice point); transition = one call of the real trivialisation '
         '(batched, 2-d batched, per-sample, or through the nn.Module) checked with the membership predicates of its manifold and '
         'against the other batch shapes; the configuration product and the lattice are enumerated completely; '
-        'non-trivial = distinct rounded outputs')
+        'non-trivial = distinct rounded outputs. Further coordinates: rank=None / omitted rank (bit-identical to rank=dim), integer-dtype '
+        'theta at the integer-valued lattice points (equal to the float call where the dtype is accepted), dim 1 for '
+        'symmetric_matrix_to_trace1PSD; modules: batch_size in {None,1,3}, rank=None, real-dtype SeparableDensityMatrix, '
+        'DiscreteProbability weights as ndarray / integer ndarray / torch tensor, QuantumChannel(dim_in=1); per module configuration: '
+        'parameter dtype and count against the dimension table, output dtype == requested dtype, forward() repeatable and theta '
+        'untouched, QuantumChannel kraus/choi == Stiefel chart of manifold.theta; memory-layout oracle (GUARD_LAYOUT) on every depth-0 call')
 ASSUMPTIONS = [
     'float64 numpy predicates (norm, eigvalsh, svd, det) decide membership; tolerance 1e3*eps(dtype)*kappa with kappa computed from theta independently (DESIGN 3.2)',
     'lattice statement only: nothing is claimed for parameter values off the pattern x scale lattice',
     'points outside the mathematical domain of a quotient/orthonormalisation (zero block, rank-deficient frame) are counted, not checked',
+    'the dimension table Spec.nparam (written from the manifold dimensions in DESIGN 4, not from the constructors) is the reference for the parameter counts',
+    'integer-dtype theta: a dtype the library refuses (assert / torch RuntimeError) is counted, not a finding; torch promotes integers to float32, so the comparison uses eps of the returned dtype',
+    'quick tier: batch_size=1 at 64 bit only (channels: default choi_rank, dim_out=2), dim_in=1 channels with choi_rank in {None,2}, forward() repeated on the first 3 parameter groups, channel-vs-Stiefel on every 4th group; thorough: full configuration product, 12 groups, every 2nd group',
+    'empty batches (0,n) are outside the stated space',
     'float32: scale capped at 40 for maps that exponentiate (IEEE range); a case whose tolerance would exceed 1e-2 is counted as skipped_ill_conditioned',
 ]
 
 C = 1e3  # safety constant of DESIGN 3.2
+# additions whose oracle fires on the unchanged tree (reported, waiting for the repair of numqi); the oracle stays in the module:
+#  weight_torch_int: DiscreteProbability(weight=<integer torch.Tensor>) computes 1/weight in float32 (torch promotes int -> default
+#                    float dtype) and then casts to the module dtype: sum_i w_i x_i = 1 holds only to 3e-8 for a float64 module
+PENDING = set()  # weight_torch_int was repaired in numqi (efd5fa3, known_findings.json)
 EPS = {64: np.finfo(np.float64).eps, 32: np.finfo(np.float32).eps}
 
 
@@ -257,6 +271,13 @@ class Trace1PSDSpec(Spec):
     def call(self, nq, th, c):
         f = nq.manifold.to_trace1_psd_cholesky if c['method'] == 'cholesky' else nq.manifold.to_trace1_psd_ensemble
         return f(th, c['dim'], c['rank'])
+
+    def alt_calls(self, nq, c):
+        """other argument forms of the same point: rank=None and the omitted rank are documented to mean rank=dim"""
+        if c['rank'] != c['dim']:
+            return []
+        f = nq.manifold.to_trace1_psd_cholesky if c['method'] == 'cholesky' else nq.manifold.to_trace1_psd_ensemble
+        return [('rank_none', lambda th: f(th, c['dim'], None)), ('rank_omitted', lambda th: f(th, c['dim'])), ('rank_keyword_none', lambda th: f(th, dim=c['dim'], rank=None))]
 
     def kappa(self, th, c):
         k = np.full(len(th), float(c['dim']))
@@ -513,7 +534,7 @@ def build_cases(tier, seed):
     dims = [2, 3, 4] if tier == 'quick' else [2, 3, 4, 5, 6]
     cases = []
     for name, spec in SPECS.items():
-        dlist = dims if name != 'sym_to_psd' else ([2, 3, 5, 6] if tier == 'quick' else [2, 3, 4, 5, 6, 7])
+        dlist = dims if name != 'sym_to_psd' else ([1, 2, 3, 5, 6] if tier == 'quick' else [1, 2, 3, 4, 5, 6, 7])  # 1: the N1==1 branch (returns ones)
         for dim in dlist:
             ranks = range(1, dim + 1) if spec.has_rank else [None]
             for rank in ranks:
@@ -527,7 +548,9 @@ def build_cases(tier, seed):
                                 c.update(ex)
                                 cases.append(c)
     # nn.Module wrappers (torch only): every class x option combination
-    for c in module_configs(dims if tier == 'thorough' else [2, 3]):
+    for c in module_configs(dims if tier == 'thorough' else [2, 3], audit=True):
+        if tier == 'quick' and not quick_keeps(c):
+            continue
         cases.append(c)
     # permutation-symmetric Hermitian manifolds on A (x) B^k (manifold/_ABk.py)
     for dA, dB, k in ((1, 2, 2), (2, 2, 1), (2, 2, 2), (2, 2, 3), (2, 3, 2), (3, 2, 2), (2, 2, 4)) + (((3, 3, 2), (2, 3, 3)) if tier == 'thorough' else ()):
@@ -536,7 +559,8 @@ def build_cases(tier, seed):
                 cases.append({'kind': 'abk', 'cls': cls, 'dim': dA, 'dimB': dB, 'k': k, 'prec': prec})
     cases.sort(key=lambda c: (c['dim'], c.get('rank') or 0, c['kind']))
     info = {'dims': dims, 'generic_atoms_per_config': 2 if tier == 'quick' else 6, 'scales': [1e-9, 1e-6, 1e-3, 0.5, 1, 2, 10, 'bound'],
-            'batch_shapes': ['(K,)', '(K/2,2)', '()', '(1,)'], 'exhaustive': True,
+            'batch_shapes': ['(K,)', '(K/2,2)', '()', '(1,)'], 'module_batch_sizes': [None, 1, 3], 'theta_dtypes': ['float', 'int64 (integer lattice points, 64 bit)'],
+            'memory_layouts': ['C', 'Fortran / re-strided (GUARD_LAYOUT)'], 'pending': sorted(PENDING), 'exhaustive': True,
             'note': 'the configuration product up to the dimension bound and the theta lattice of each configuration are enumerated completely'}
     return cases, info
 
@@ -603,6 +627,23 @@ def run_func(case, out, env):
             fail('wrong_shape', 'batched output shape %s, expected %s' % (X.shape, (K,) + oshape))
             X = None
     if X is not None:
+        # ---- output field: a complex array exactly for the complex field (a real-field map must not hand out complex numbers with
+        # zero imaginary part, and the complex maps must not drop to real); the precision of the output is not part of the statement
+        is_c = Xb.is_complex() if isinstance(Xb, torch.Tensor) else np.iscomplexobj(Xb)
+        if bool(is_c) != (c['field'] == 'complex'):
+            fail('output_field', 'field=%s but the result has dtype %s' % (c['field'], Xb.dtype))
+        # ---- other documented argument forms of the same call (rank=None == rank=dim): same code path, same bits
+        for tag, fn in (spec.alt_calls(numqi, c) if hasattr(spec, 'alt_calls') else []):
+            try:
+                with np.errstate(all='ignore'):
+                    Xa = to_np64(fn(th))
+                out.trans()
+            except Exception as e:
+                fail('%s_raises_%s' % (tag, type(e).__name__), 'argument form %s raised %r' % (tag, e))
+                continue
+            if Xa.shape != X.shape or not np.array_equal(Xa, X, equal_nan=True):
+                fail('%s_differs_from_rank_dim' % tag, 'argument form %s gives a result different from rank=dim (shape %s, max diff %.3g)'
+                     % (tag, Xa.shape, np.nanmax(np.abs(Xa - X)) if Xa.shape == X.shape else np.inf))
         Xm = X.reshape(K, -1) if len(oshape) == 1 else X
         finite = np.isfinite(X.reshape(K, -1)).all(axis=1)
         bad = np.nonzero(in_dom & ~finite)[0]
@@ -623,6 +664,38 @@ def run_func(case, out, env):
         out.state(int(sel.sum()))
         for j in np.nonzero(sel)[0][:: max(1, K // 64)]:
             out.outcome((c['map'], ck, np.round(X[j], 5)), nontrivial=True)
+    # ---- integer-valued lattice points handed over with an integer dtype (64 bit configurations; theta of sym_to_psd is the harness's
+    # own parametrisation of the matrix argument, not a library argument). Where the library accepts the dtype, the result must be the
+    # one of the same numbers as floats, to the precision of the dtype it returns (torch promotes integers to float32).
+    if X is not None and c['prec'] == 64 and c['map'] != 'sym_to_psd':
+        rows = np.nonzero(decided & (pts_used == np.round(pts_used)).all(axis=1) & np.isfinite(X.reshape(K, -1)).all(axis=1))[0]
+        if len(rows):
+            ti = pts_used[rows].astype(np.int64)
+            if c['backend'] == 'torch':
+                ti = torch.tensor(ti)
+            try:
+                with np.errstate(all='ignore'):
+                    Xf = to_np64(spec.call(numqi, make_theta(pts_used[rows] + 0.0, c), c))  # the same numbers as floats (+0.0: an integer has no negative zero, and the sign convention of QR looks at it)
+                    Xi_raw = spec.call(numqi, ti, c)
+                Xi = to_np64(Xi_raw)
+            except Exception as e:
+                out.count('rejected_by_precondition[int_theta]' if core.is_precondition_assert(e) else 'int_theta_not_accepted[%s]' % type(e).__name__)
+                Xi = None
+            if Xi is not None:
+                out.trans()
+                p32 = str(Xi_raw.dtype).split('.')[-1] in ('float32', 'complex64')
+                toli = tol[rows] * (EPS[32] / EPS[64] if p32 else 1.0)
+                if p32 and spec.exp_type:
+                    toli = np.where(np.abs(pts_used[rows]).max(axis=1) <= 40.0, toli, 1.0)  # float32 result: the float32 scale cap of exponentiating maps applies
+                if Xi.shape != (len(rows),) + oshape:
+                    fail('int_theta_wrong_shape', 'integer theta of shape %s gave shape %s' % (ti.shape, Xi.shape))
+                else:
+                    d = np.abs(Xi - Xf).reshape(len(rows), -1).max(axis=1)
+                    bad = np.nonzero((toli <= 1e-2) & ~(d <= 10 * toli))[0]
+                    if len(bad):
+                        fail('int_theta_differs_from_float_theta', 'integer-dtype theta=%s gives a result that differs by %.3g from the same numbers as floats (result dtype %s)'
+                             % (pts_used[rows[bad[0]]].tolist(), d[bad[0]], Xi_raw.dtype), theta=pts_used[rows[bad[0]]])
+                    out.count('int_theta_points_compared', int((toli <= 1e-2).sum()))
     # ---- (K/2,2) batch
     th2 = th.reshape(K // 2, 2, n)
     try:
@@ -674,12 +747,32 @@ def run_func(case, out, env):
 
 
 # ------------------------------------------------------------------------------------------------ nn.Module wrappers
-def module_configs(dims):
+def module_configs(dims, audit=False):
+    """audit=False: the configuration list that C02 imports (unchanged). audit=True (C01's own enumeration) adds the coordinates of
+    the coverage audit: batch_size=1, rank=None (documented default = dim), SeparableDensityMatrix with a real dtype,
+    DiscreteProbability(weight=torch.Tensor), and QuantumChannel(dim_in=1) (state preparations; every other class asserts dim>=2)."""
     import itertools as it
     cs = []
+    batches = (None, 1, 3) if audit else (None, 3)
+
+    def channels(d):
+        # channels: dim plays the role of dim_in
+        for prec in (64, 32):
+            for bs in batches:
+                for dout in (1, 2, 3):
+                    for cr in (None, 1, 2):
+                        crr = d * dout if cr is None else cr
+                        if crr * dout < max(2, d):
+                            continue  # no such channel: a complete Kraus set needs choi_rank*dim_out >= dim_in (Stiefel needs dim>=2)
+                        for m in ('choleskyL', 'qr', 'polar', 'so-exp', 'so-cayley', 'euler'):
+                            for ph in ((False, True) if m == 'euler' else (False,)):
+                                for rk in ('kraus', 'choi'):
+                                    cs.append({'kind': 'module', 'cls': 'QuantumChannel', 'dim': d, 'prec': prec, 'batch': bs, 'dim_out': dout,
+                                               'choi_rank': cr, 'method': m, 'phase': ph, 'return_kind': rk, 'field': 'complex'})
+
     for d in dims:
         for prec in (64, 32):
-            for bs in (None, 3):
+            for bs in batches:
                 base = {'kind': 'module', 'dim': d, 'prec': prec, 'batch': bs}
                 for m in ('softplus', 'exp'):
                     cs.append(dict(base, cls='PositiveReal', method=m, field='real'))
@@ -698,34 +791,40 @@ def module_configs(dims):
                         for m in ('choleskyL', 'qr', 'polar', 'so-exp', 'so-cayley', 'euler'):
                             for ph in ((False, True) if (m == 'euler' and f == 'complex') else (False,)):
                                 cs.append(dict(base, cls='Stiefel', field=f, method=m, rank=r, phase=ph))
+                    if audit:
+                        for m in ('cholesky', 'ensemble'):
+                            cs.append(dict(base, cls='Trace1PSD', field=f, method=m, rank=None))
                 for m in ('softmax', 'sphere'):
-                    for w in (False, True, 'int'):
+                    for w in (False, True, 'int') + (('torch', 'torch_int') if audit else ()):
                         cs.append(dict(base, cls='DiscreteProbability', field='real', method=m, weight=w))
                 # composed
                 for m in ('quotient', 'coordinate'):
                     cs.append(dict(base, cls='quantum_state', field='complex', method=m))
-                for r in range(1, d + 1):
+                for r in list(range(1, d + 1)) + ([None] if audit else []):
                     for m in ('cholesky', 'ensemble'):
                         cs.append(dict(base, cls='density_matrix', field='complex', method=m, rank=r))
                 for m, o in (('exp', 2), ('cayley', 2)):
                     cs.append(dict(base, cls='quantum_gate', field='complex', method=m, order=o))
                 for dB in (2, 3):
                     for nc in (None, 2, 3):  # num_cha=1 is inadmissible: every numqi simplex/sphere manifold asserts dim>=2
-                        cs.append(dict(base, cls='SeparableDensityMatrix', field='complex', dimB=dB, num_cha=nc))
-        # channels: dim plays the role of dim_in
-        for prec in (64, 32):
-            for bs in (None, 3):
-                for dout in (1, 2, 3):
-                    for cr in (None, 1, 2):
-                        crr = d * dout if cr is None else cr
-                        if crr * dout < max(2, d):
-                            continue  # no such channel: a complete Kraus set needs choi_rank*dim_out >= dim_in (Stiefel needs dim>=2)
-                        for m in ('choleskyL', 'qr', 'polar', 'so-exp', 'so-cayley', 'euler'):
-                            for ph in ((False, True) if m == 'euler' else (False,)):
-                                for rk in ('kraus', 'choi'):
-                                    cs.append({'kind': 'module', 'cls': 'QuantumChannel', 'dim': d, 'prec': prec, 'batch': bs, 'dim_out': dout,
-                                               'choi_rank': cr, 'method': m, 'phase': ph, 'return_kind': rk, 'field': 'complex'})
+                        for f in ('complex', 'real') if audit else ('complex',):
+                            cs.append(dict(base, cls='SeparableDensityMatrix', field=f, dimB=dB, num_cha=nc))
+        channels(d)
+    if audit and 1 not in dims:
+        channels(1)  # dim_in=1
     return cs
+
+
+def quick_keeps(c):
+    """quick tier: the audit coordinates batch_size=1 and dim_in=1 are enumerated on a sub-lattice of the other option coordinates
+    (the thorough tier enumerates the full product): batch_size=1 at 64 bit only, for channels only with the default choi_rank and
+    dim_out=2; dim_in=1 channels with choi_rank in {None, 2}."""
+    ch = c['cls'] == 'QuantumChannel'
+    if c['batch'] == 1 and (c['prec'] != 64 or (ch and not (c['choi_rank'] is None and c['dim_out'] == 2))):
+        return False
+    if ch and c['dim'] == 1 and c['choi_rank'] == 1:
+        return False
+    return True
 
 
 def torch_dtype(c):
@@ -741,6 +840,8 @@ def build_module(nq, c):
     cls = c['cls']
     fc = dict(c)
     fc['backend'] = 'torch'
+    if 'rank' in fc and fc['rank'] is None:
+        fc['rank'] = d  # documented default: rank=None means full rank; the functional reference is called with rank=dim
     if cls == 'PositiveReal':
         mod = M.PositiveReal(bs, c['method'], dtype=dt)
         return mod, ('positive_real', dict(fc, dim=1 if bs is None else bs)), None
@@ -763,13 +864,43 @@ def build_module(nq, c):
     if cls == 'Stiefel':
         return M.Stiefel(d, c['rank'], bs, method=c['method'], euler_with_phase=c['phase'], dtype=dt), ('stiefel', fc), None
     if cls == 'DiscreteProbability':
-        w = None if not c['weight'] else (np.arange(1, d + 1) if c['weight'] == 'int' else (np.arange(d) + 1.0) / 2)  # 'int': integer dtype weights (multiplicities)
-        return M.DiscreteProbability(d, bs, c['method'], weight=w, dtype=dt), ('simplex', fc), w
+        w = None if not c['weight'] else (np.arange(1, d + 1) if c['weight'] in ('int', 'torch_int') else (np.arange(d) + 1.0) / 2)  # 'int': integer dtype weights (multiplicities)
+        warg = w
+        if c['weight'] in ('torch', 'torch_int'):  # docstring: weight (np.ndarray,torch.Tensor); 'torch': tensor of the module's own dtype
+            import torch
+            warg = torch.tensor(w, dtype=torch.int64 if c['weight'] == 'torch_int' else dt)
+        return M.DiscreteProbability(d, bs, c['method'], weight=warg, dtype=dt), ('simplex', fc), w
     if cls == 'SeparableDensityMatrix':
         return M.SeparableDensityMatrix(d, c['dimB'], c['num_cha'], bs, dtype=dt), None, None
     if cls == 'QuantumChannel':
         return M.QuantumChannel(d, c['dim_out'], c['choi_rank'], bs, method=c['method'], euler_with_phase=c['phase'], return_kind=c['return_kind'], dtype=dt), None, None
     raise ValueError(cls)
+
+
+def expected_nparam(c, fref):
+    """number of real parameters the constructor must allocate, from the dimension table (Spec.nparam) and the configuration
+    alone - nothing is read from the module (DESIGN 4 / C01: 'parameter count == manifold chart dimension')"""
+    bs = c['batch']
+    nb = 1 if bs is None else bs
+    cls = c['cls']
+    if cls in ('PositiveReal', 'OpenInterval'):
+        return nb  # one number per sample
+    if cls == 'SeparableDensityMatrix':
+        nc = 2 * c['dim'] * c['dimB'] if c['num_cha'] is None else c['num_cha']
+        f = 1 if c['field'] == 'real' else 2
+        return nb * (nc + nc * f * c['dim'] + nc * f * c['dimB'])
+    if cls == 'QuantumChannel':
+        cr = c['dim'] * c['dim_out'] if c['choi_rank'] is None else c['choi_rank']
+        sc = {'method': c['method'], 'dim': cr * c['dim_out'], 'rank': c['dim'], 'field': 'complex', 'phase': c['phase']}
+        return nb * SPECS['stiefel'].nparam(sc)
+    return nb * SPECS[fref[0]].nparam(fref[1])
+
+
+def expected_out_dtype(c):
+    import torch
+    if c['cls'] in ('PositiveReal', 'OpenInterval', 'DiscreteProbability') or c['field'] == 'real':
+        return torch.float32 if c['prec'] == 32 else torch.float64
+    return torch.complex64 if c['prec'] == 32 else torch.complex128
 
 
 def run_module(case, out, env):
@@ -785,6 +916,11 @@ def run_module(case, out, env):
         kk = ','.join('%s=%s' % (k, c[k]) for k in ('method', 'field', 'phase', 'return_kind') if k in c)
         out.violation('%s/%s/%s' % (site, cls_, kk), '%s(dim=%d,%s,prec=%d): %s' % (c['cls'], c['dim'], ck, c['prec'], what), config=c, **kw)
 
+    if c.get('weight') == 'torch_int' and 'weight_torch_int' in PENDING:
+        out.count('pending/weight_torch_int')
+        out.state()
+        out.trans()
+        return
     try:
         mod, fref, extra = build_module(numqi, c)
     except Exception as e:
@@ -802,6 +938,19 @@ def run_module(case, out, env):
     n = sum(sizes)
     bs = c['batch']
     nb = 1 if bs is None else bs
+    # ---- constructor against the dimension table: parameters are real numbers of the requested precision, and there are exactly
+    # Spec.nparam of them per sample (a constructor that mistakes complex64 for a real dtype builds a *consistent* real manifold:
+    # module == function and membership both hold, only the count and the output field tell)
+    real_dt = torch.float32 if c['prec'] == 32 else torch.float64
+    if any(p.dtype != real_dt for p in params):
+        fail('parameter_dtype', 'parameter dtypes %s, expected %s' % ([str(p.dtype) for p in params], real_dt))
+        return
+    n_exp = expected_nparam(c, fref)
+    out.check(n == n_exp, '%s/parameter_count_differs_from_dimension_table/%s' % (site, ','.join('%s=%s' % (k, c[k]) for k in ('method', 'field', 'phase') if k in c)),
+              '%s(dim=%d,%s,prec=%d): constructor allocates %d parameters, the dimension table gives %d' % (c['cls'], c['dim'], ck, c['prec'], n, n_exp), config=c)
+    if n != n_exp:
+        return
+    out_dt = expected_out_dtype(c)
     # lattice over the concatenated parameter vector of ONE sample; a batch takes consecutive lattice points
     nper = n // nb
     G = 2 if env.tier == 'quick' else 6
@@ -820,14 +969,17 @@ def run_module(case, out, env):
     elif c['cls'] == 'SeparableDensityMatrix':
         nc_ = mod.num_cha
         dA_, dB_ = c['dim'], c['dimB']
-        blkA = pts[:, nc_:nc_ + nc_ * 2 * dA_].reshape(len(pts), nc_, -1)
-        blkB = pts[:, nc_ + nc_ * 2 * dA_:].reshape(len(pts), nc_, -1)
+        f_ = 1 if c['field'] == 'real' else 2
+        blkA = pts[:, nc_:nc_ + nc_ * f_ * dA_].reshape(len(pts), nc_, -1)
+        blkB = pts[:, nc_ + nc_ * f_ * dA_:].reshape(len(pts), nc_, -1)
         good = (np.linalg.norm(blkA, axis=2).min(axis=1) > 0) & (np.linalg.norm(blkB, axis=2).min(axis=1) > 0)
         pts = pts[good]
     maxpts = 60 if env.tier == 'quick' else 240
     sel_pts = pts[:: max(1, len(pts) // maxpts)]
     groups = [None] + [sel_pts[i:i + nb] for i in range(0, len(sel_pts) - nb + 1, nb)]
-    for g in groups:
+    n_repeat = 3 if env.tier == 'quick' else 12  # leading groups (initial theta + lattice) on which forward() is evaluated twice
+    ref_stride = 4 if env.tier == 'quick' else 2  # QuantumChannel: every ref_stride-th group is compared with the Stiefel chart (one more library call)
+    for gi, g in enumerate(groups):
         if g is not None:
             # distribute a sample's parameter vector over the module's parameter tensors, sample-major
             off = 0
@@ -838,6 +990,7 @@ def run_module(case, out, env):
                     p.copy_(torch.tensor(vals.reshape(p.shape), dtype=p.dtype))
                     off += m
         out.state()
+        snap = [p.detach().clone() for p in params]  # bitwise copy of theta before the call
         try:
             with np.errstate(all='ignore'):
                 Y = mod()
@@ -851,6 +1004,25 @@ def run_module(case, out, env):
             fail('not_finite', 'forward() returned NaN/Inf', theta=None if g is None else g)
             return
         out.outcome((c['cls'], ck, np.round(Yn, 5)), nontrivial=True)
+        # ---- output field / precision: the dtype the constructor was asked for (real dtype -> real manifold, 32 bit stays 32 bit)
+        if Y.dtype != out_dt:
+            fail('output_dtype', 'forward() returns dtype %s, the module was constructed for %s' % (Y.dtype, out_dt))
+            return
+        # ---- forward() is a function of theta: a second call on unchanged parameters gives the same bits and leaves theta alone
+        if any(not torch.equal(p.detach(), q) for p, q in zip(params, snap)):
+            fail('forward_modifies_theta', 'forward() changed the module parameters')
+            return
+        Y2 = Y
+        if gi < n_repeat:
+            with np.errstate(all='ignore'):
+                Y2 = mod()
+            out.trans()
+            if any(not torch.equal(p.detach(), q) for p, q in zip(params, snap)):
+                fail('forward_modifies_theta', 'the second forward() changed the module parameters')
+                return
+        if Y2.dtype != Y.dtype or Y2.shape != Y.shape or not torch.equal(Y2.detach(), Y.detach()):
+            fail('forward_not_repeatable', 'second forward() on unchanged theta differs from the first (max %.3g)' % float(np.abs(to_np64(Y2) - Yn).max() if Y2.shape == Y.shape else np.inf))
+            return
         # ---- module == functional map on module.theta (exactly the same backend: <= 2 ulp relative to the largest entry)
         if fref is not None:
             sname, fc = fref
@@ -878,6 +1050,40 @@ def run_module(case, out, env):
             except Exception as e:
                 fail('function_on_module_theta_raises_%s' % type(e).__name__, 'functional map on module.theta raised %r' % (e,))
                 return
+        # ---- QuantumChannel == Stiefel chart of its own parameters: the frame to_stiefel_<method>(manifold.theta, choi_rank*dim_out,
+        # dim_in) cut row-major into choi_rank blocks of shape (dim_out, dim_in) is the Kraus list; Choi = sum_k K_k (x) conj(K_k)
+        if c['cls'] == 'QuantumChannel' and gi % ref_stride == 0:
+            din, dout = c['dim'], c['dim_out']
+            cr = din * dout if c['choi_rank'] is None else c['choi_rank']
+            sc = {'method': c['method'], 'dim': cr * dout, 'rank': din, 'field': 'complex', 'phase': c['phase'], 'backend': 'torch', 'prec': c['prec']}
+            try:
+                with np.errstate(all='ignore'):
+                    Z = SPECS['stiefel'].call(numqi, mod.manifold.theta.detach().clone(), sc)
+                Zn = to_np64(Z)
+            except Exception as e:
+                fail('function_on_module_theta_raises_%s' % type(e).__name__, 'Stiefel map on manifold.theta raised %r' % (e,))
+                return
+            if Zn.shape != (() if bs is None else (bs,)) + (cr * dout, din):
+                fail('module_shape_differs_from_function', 'Stiefel map on manifold.theta has shape %s' % (Zn.shape,))
+                return
+            Zk = Zn.reshape((-1, cr, dout, din))
+            if c['return_kind'] == 'kraus':
+                ref_ = Zk
+                tol_f = 4 * eps * max(1.0, np.abs(Yn).max())  # same backend, same operations: <= 2 ulp (as for the other classes)
+            else:
+                ref_ = np.einsum('bkoi,bkpj->boipj', Zk, Zk.conj())
+                # every entry is a sum of choi_rank products of Kraus entries with sum_k |K_koi||K_kpj| <= 1 (orthonormal columns):
+                # complex product 2*sqrt(2)*eps each, (choi_rank-1)*eps for the summation in any order
+                tol_f = 4 * eps * (cr + 2)
+            ref_ = ref_.reshape((() if bs is None else (bs,)) + ref_.shape[1:])  # documented layout: batch axis only for batch_size != None
+            if Yn.shape != ref_.shape:
+                fail('module_shape_differs_from_function', 'forward() shape %s, %s from the Stiefel map has %s' % (Yn.shape, c['return_kind'], ref_.shape))
+                return
+            d_ = np.abs(ref_ - Yn).max()
+            if not d_ <= tol_f:
+                fail('module_differs_from_function', 'forward() differs from the %s built from to_stiefel(manifold.theta) by %.3g' % (c['return_kind'], d_), theta=to_np64(mod.manifold.theta))
+                return
+            out.trans()
         # ---- membership of the module output
         if c['cls'] == 'QuantumChannel':
             sc = {'method': c['method'], 'dim': mod.choi_rank * c['dim_out'], 'rank': c['dim'], 'field': 'complex', 'phase': c['phase']}
@@ -906,13 +1112,15 @@ def run_module(case, out, env):
                     return
             # convex mixture of product projectors recomputed from the raw parameters
             tp = to_np64(mod.manifold_p.theta).reshape(nb, nc)
-            ta = to_np64(mod.manifold_psiA.theta).reshape(nb, nc, 2 * dA)
-            tb = to_np64(mod.manifold_psiB.theta).reshape(nb, nc, 2 * dB)
+            fr = 1 if c['field'] == 'real' else 2
+            ta = to_np64(mod.manifold_psiA.theta).reshape(nb, nc, fr * dA)
+            tb = to_np64(mod.manifold_psiB.theta).reshape(nb, nc, fr * dB)
             p = np.exp(tp - tp.max(axis=1, keepdims=True))
             p = p / p.sum(axis=1, keepdims=True)
-            a = ta[..., :dA] + 1j * ta[..., dA:]
+            # product-state split: complex dtype -> theta = [re, im]; real dtype -> theta is the (real) vector itself
+            a = ta if fr == 1 else ta[..., :dA] + 1j * ta[..., dA:]
             a = a / np.linalg.norm(a, axis=-1, keepdims=True)
-            b = tb[..., :dB] + 1j * tb[..., dB:]
+            b = tb if fr == 1 else tb[..., :dB] + 1j * tb[..., dB:]
             b = b / np.linalg.norm(b, axis=-1, keepdims=True)
             ab = np.einsum('bci,bcj->bcij', a, b).reshape(nb, nc, dA * dB)
             ref_ = np.einsum('bc,bci,bcj->bij', p, ab, ab.conj())
